@@ -1,3 +1,4 @@
+use super::field_utils::ensure_no_surplus_lines;
 use super::swift_utils::{parse_bic, parse_swift_chars};
 use crate::errors::ParseError;
 use crate::traits::SwiftField;
@@ -75,6 +76,7 @@ impl SwiftField for Field58A {
         }
 
         let bic = parse_bic(lines[bic_line_idx])?;
+        ensure_no_surplus_lines(&lines, bic_line_idx + 1, "Field 58A")?;
 
         Ok(Field58A {
             party_identifier,
